@@ -24,6 +24,7 @@ func TestMain(m *testing.M) { world.Main(m) }
 
 var quickSubset = []model.FunctionType{
 	model.FunctionTypeAlarmListData,
+	model.FunctionTypeBillListData, // items with a nested list (positions with ids of their own)
 	model.FunctionTypeLoadControlLimitListData,
 	model.FunctionTypeSetpointListData,
 	model.FunctionTypeDeviceConfigurationKeyValueListData,
